@@ -1183,9 +1183,9 @@ func TestVerifC10(t *testing.T) {
 	}
 	longs := []longPat{ // cheapest first: an internal deadline cuts the triple-edit runs, not the long patterns
 		{m1, 1, 1}, {m2, 1, 1}, {m1[32:] + m2[:32], 1, 1},
-		{m1[:63], 1, 2}, {m2[:63], 1, 2}, {m2[1:64], 1, 2},
-		{m1[:32], 1, 2}, {m2[:32], 1, 2},
 		{m1[:8], 2, 3}, {m2[16:24], 2, 3},
+		{m1[:32], 1, 2}, {m2[:32], 1, 2},
+		{m1[:63], 1, 2}, {m2[:63], 1, 2}, {m2[1:64], 1, 2},
 		{m1[:20], 2, 3}, {m2[:20], 2, 3},
 	}
 	ctxs := []string{"", "g", "ca", "tgc"}
